@@ -40,6 +40,9 @@ struct Subst {
     find: String,
     replace: String,
     why: String,
+    /// replace every occurrence (default: the pattern must match exactly once)
+    #[serde(default)]
+    all: bool,
 }
 
 #[derive(Deserialize, Default, Clone)]
@@ -71,6 +74,12 @@ struct FnSpec {
     /// override of generic-parameter text `<...>` of the fn (monomorphisation, logged)
     #[serde(default)]
     rename: String,
+    /// name the emitted copy goes by in logs (monomorphised copies of one generic function)
+    #[serde(default)]
+    label: String,
+    /// R13: loop contracts for desugared iterator chains `xs.iter().enumerate().map(F).fold(init, G)`, by ordinal
+    #[serde(default)]
+    iter_loops: BTreeMap<String, LoopSpec>,
 }
 
 #[derive(Deserialize, Clone)]
@@ -124,6 +133,25 @@ enum Unit {
         what: String,
         file: String,
         name: String,
+    },
+    /// R14: static dispatch resolved mechanically: the body `<self_ty as trait_>::method` runs -- the impl's own
+    /// method if the impl block defines one, else the trait's provided (default) body -- emitted as a free function
+    /// `fn <name>(this: &SelfTy) -> Ret` (only `&self` methods without further parameters)
+    #[serde(rename = "resolved")]
+    Resolved {
+        trait_file: String,
+        trait_: String,
+        method: String,
+        impl_file: String,
+        self_ty: String,
+        name: String,
+        #[serde(default)]
+        ret: String,
+        #[serde(default)]
+        ensures: Vec<String>,
+        /// "assumed": contract only (the body is verified in another module)
+        #[serde(default)]
+        mode: String,
     },
     #[serde(rename = "exprs")]
     Exprs {
@@ -420,9 +448,51 @@ struct Rw<'a> {
     arr_idx: usize,
     tail_loop_break_to_return: bool,
     in_tail_loop_depth: usize,
+    iter_chain_idx: usize,
 }
 
 impl<'a> Rw<'a> {
+    /// R13: `X.iter().enumerate().map(F).fold(INIT, G)` -> the index loop these adaptors are defined as
+    /// (`acc = G(acc, F((i, &X[i])))` for i in 0..X.len()); F and G stay verbatim closures.
+    fn try_iter_chain(&mut self, mc: &syn::ExprMethodCall) -> bool {
+        if mc.method != "fold" || mc.args.len() != 2 {
+            return false;
+        }
+        let map = match &*mc.receiver { syn::Expr::MethodCall(m) if m.method == "map" && m.args.len() == 1 => m, _ => return false };
+        let en = match &*map.receiver { syn::Expr::MethodCall(m) if m.method == "enumerate" && m.args.is_empty() => m, _ => return false };
+        let it = match &*en.receiver { syn::Expr::MethodCall(m) if m.method == "iter" && m.args.is_empty() => m, _ => return false };
+        let k = self.iter_chain_idx;
+        self.iter_chain_idx += 1;
+        let ls = match self.spec.iter_loops.get(&k.to_string()).cloned() {
+            Some(l) => l,
+            None => return false,
+        };
+        let x = &*it.receiver;
+        let (xs, xe) = br(x.span());
+        let (c1s, c1e) = br(map.args[0].span());
+        let (is_, ie) = br(mc.args[0].span());
+        let (c2s, c2e) = br(mc.args[1].span());
+        let (_, end) = br(mc.span());
+        let mut inv = String::new();
+        if !ls.invariant.is_empty() {
+            inv.push_str(&format!(" invariant {},", ls.invariant.join(", ")));
+        }
+        let dec = if ls.decreases.is_empty() { "__it.len() - __i".to_string() } else { ls.decreases.clone() };
+        self.insert_open(xs, "{ let __it = ".to_string());
+        self.replace_range(xe, c1s, "; let __f = ".to_string(), "R13-iter-chain");
+        self.replace_range(c1e, is_, "; let mut __acc = ".to_string(), "R13-iter-chain");
+        self.replace_range(ie, c2s, "; let __g = ".to_string(), "R13-iter-chain");
+        self.replace_range(c2e, end, format!(
+            "; let mut __i: usize = 0; while __i < __it.len(){} decreases {}, {{ {} __acc = __g(__acc, __f((__i, &__it[__i]))); __i += 1; }} __acc }}",
+            inv, dec, ls.body_prologue), "R13-iter-chain");
+        // closures and the operands are visited for the other rules
+        self.visit_expr(x);
+        self.visit_expr(&map.args[0]);
+        self.visit_expr(&mc.args[0]);
+        self.visit_expr(&mc.args[1]);
+        true
+    }
+
     fn text(&self, sp: Span) -> &'a str {
         let (s, e) = br(sp);
         &self.src[s..e]
@@ -898,6 +968,9 @@ impl<'a, 'ast> Visit<'ast> for Rw<'a> {
     }
 
     fn visit_expr_method_call(&mut self, mc: &'ast syn::ExprMethodCall) {
+        if self.try_iter_chain(mc) {
+            return;
+        }
         // R6: NAME.into() where NAME is a monomorphised `impl Into<_>` parameter
         if mc.method == "into" && mc.args.is_empty() {
             if let syn::Expr::Path(p) = &*mc.receiver {
@@ -1042,6 +1115,7 @@ fn extract_fn(
         arr_idx: 0,
         tail_loop_break_to_return: false,
         in_tail_loop_depth: 0,
+        iter_chain_idx: 0,
     };
     let (_, wend) = br(whole);
     let (sig_s, sig_e) = br(sig.span());
@@ -1226,6 +1300,16 @@ fn extract_fn(
     // R12 textual substitutions (each must match exactly once)
     for s in &spec.subst {
         let n = text.matches(&s.find).count();
+        if s.all && n >= 1 {
+            text = text.replace(&s.find, &s.replace);
+            rw.log.push(Rewrite {
+                rule: format!("R12-subst-all ({})", s.why),
+                item: item_label.to_string(),
+                orig: short(&s.find),
+                repl: format!("{} ({} occurrences)", short(&s.replace), n),
+            });
+            continue;
+        }
         if n != 1 {
             return Err(vec![format!(
                 "R12: pattern `{}` matches {} times in {} (expected 1)",
@@ -2477,7 +2561,9 @@ fn main() {
                                         let e = br(im.brace_token.span.open()).0;
                                         impl_header = Some(src.text[s..e].trim().to_string());
                                     }
-                                    let label = if trait_.is_empty() {
+                                    let label = if !spec.label.is_empty() {
+                                        spec.label.clone()
+                                    } else if trait_.is_empty() {
                                         format!("{}::{}", self_ty, spec.name)
                                     } else {
                                         format!("<{} as {}>::{}", self_ty, trait_, spec.name)
@@ -2607,6 +2693,130 @@ fn main() {
                     }
                 }
                 emit!("}\n".to_string(), "trait end".to_string(), "raw", String::new(), 0, 0);
+            }
+            Unit::Resolved {
+                trait_file,
+                trait_,
+                method,
+                impl_file,
+                self_ty,
+                name,
+                ret,
+                ensures,
+                mode,
+            } => {
+                // which body runs?
+                let (body_text, sig_out, from, file_used, s_line, e_line) = {
+                    let isrc = load!(impl_file);
+                    let mut items = Vec::new();
+                    collect_items(&isrc.file.items, &mut items);
+                    let mut found: Option<(String, String, usize, usize)> = None;
+                    let mut impl_seen = false;
+                    for it in &items {
+                        if let syn::Item::Impl(im) = it {
+                            if skip_by_cfg(&im.attrs) || last_seg(&im.self_ty) != *self_ty {
+                                continue;
+                            }
+                            let tr = im.trait_.as_ref().map(|(_, p, _)| p.segments.last().unwrap().ident.to_string()).unwrap_or_default();
+                            if &tr != trait_ {
+                                continue;
+                            }
+                            impl_seen = true;
+                            for ii in &im.items {
+                                if let syn::ImplItem::Fn(f) = ii {
+                                    if f.sig.ident == method.as_str() && !skip_by_cfg(&f.attrs) {
+                                        let (bs, be) = br(f.block.span());
+                                        let out = match &f.sig.output {
+                                            syn::ReturnType::Type(_, ty) => { let (a, b) = br(ty.span()); isrc.text[a..b].to_string() }
+                                            _ => "()".to_string(),
+                                        };
+                                        if f.sig.inputs.len() != 1 {
+                                            die(&mut log, &log_path, format!("R14: {}::{} takes parameters", self_ty, method));
+                                        }
+                                        found = Some((isrc.text[bs..be].to_string(), out, line_of(&isrc.text, bs), line_of(&isrc.text, be)));
+                                    }
+                                }
+                            }
+                        }
+                    }
+                    if !impl_seen {
+                        die(&mut log, &log_path, format!("lost anchor: impl {} for {} in {}", trait_, self_ty, impl_file));
+                    }
+                    match found {
+                        Some((b, o, s, e)) => (b, o, "impl", impl_file.clone(), s, e),
+                        None => {
+                            let tsrc = load!(trait_file);
+                            let mut items = Vec::new();
+                            collect_items(&tsrc.file.items, &mut items);
+                            let tr = items.iter().find_map(|it| match it {
+                                syn::Item::Trait(t) if t.ident == trait_.as_str() && !skip_by_cfg(&t.attrs) => Some(t),
+                                _ => None,
+                            });
+                            let tr = match tr {
+                                Some(t) => t,
+                                None => die(&mut log, &log_path, format!("lost anchor: trait {} in {}", trait_, trait_file)),
+                            };
+                            let mut r = None;
+                            for ti in &tr.items {
+                                if let syn::TraitItem::Fn(f) = ti {
+                                    if f.sig.ident == method.as_str() {
+                                        if let Some(block) = &f.default {
+                                            let (bs, be) = br(block.span());
+                                            let out = match &f.sig.output {
+                                                syn::ReturnType::Type(_, ty) => { let (a, b) = br(ty.span()); tsrc.text[a..b].to_string() }
+                                                _ => "()".to_string(),
+                                            };
+                                            if f.sig.inputs.len() != 1 {
+                                                die(&mut log, &log_path, format!("R14: {}::{} takes parameters", trait_, method));
+                                            }
+                                            r = Some((tsrc.text[bs..be].to_string(), out, line_of(&tsrc.text, bs), line_of(&tsrc.text, be)));
+                                        }
+                                    }
+                                }
+                            }
+                            match r {
+                                Some((b, o, s, e)) => (b, o, "trait default", trait_file.clone(), s, e),
+                                None => die(&mut log, &log_path, format!("lost anchor: no body for {}::{} (impl for {})", trait_, method, self_ty)),
+                            }
+                        }
+                    }
+                };
+                // `self` -> `this` on identifier boundaries
+                let mut body = String::new();
+                let bytes: Vec<char> = body_text.chars().collect();
+                let mut i = 0;
+                while i < bytes.len() {
+                    let is_id = |c: char| c.is_alphanumeric() || c == '_';
+                    if bytes[i..].starts_with(&['s', 'e', 'l', 'f'])
+                        && (i == 0 || !is_id(bytes[i - 1]))
+                        && (i + 4 >= bytes.len() || !is_id(bytes[i + 4]))
+                    {
+                        body.push_str("this");
+                        i += 4;
+                    } else {
+                        body.push(bytes[i]);
+                        i += 1;
+                    }
+                }
+                let mut clauses = String::new();
+                if !ensures.is_empty() {
+                    clauses.push_str(&format!("\n    ensures\n        {},\n", ensures.join(",\n        ")));
+                }
+                let rname = if ret.is_empty() { "r".to_string() } else { ret.clone() };
+                let text = if mode == "assumed" {
+                    log.assumed.push(name.clone());
+                    format!("#[verifier::external_body]\npub fn {}(this: &{}) -> ({}: {}){}{{ unimplemented!() }}\n", name, self_ty, rname, sig_out, clauses)
+                } else {
+                    format!("pub fn {}(this: &{}) -> ({}: {}){}{}\n", name, self_ty, rname, sig_out, clauses, body)
+                };
+                log.rewrites.push(Rewrite {
+                    rule: "R14-resolved-method".into(),
+                    item: name.clone(),
+                    orig: format!("<{} as {}>::{} ({} body, {}:{})", self_ty, trait_, method, from, file_used, s_line),
+                    repl: format!("free fn {}(this: &{}) with the same body", name, self_ty),
+                });
+                log.items.push(format!("fn {}::<{} as {}>::{} ({} body)", file_used, self_ty, trait_, method, from));
+                emit!(text, name.clone(), if mode == "assumed" { "assumed" } else { "fn" }, file_used.clone(), s_line, e_line);
             }
             Unit::Table { what, file, name } => {
                 let src = load!(file);
